@@ -178,6 +178,8 @@ type Path struct {
 	usedMapOrder bool
 	known map[*sym.Term]bool
 	auxPrefix []uint64
+	tb map[*sym.Term]ival
+	bmemo map[*sym.Term]ival
 	auxTrace []uint64
 	SkippedQ int64
 }
@@ -200,6 +202,7 @@ func (p *Path) learn(t *sym.Term, val bool) {
 		return
 	}
 	p.known[t] = val
+	p.learnBound(t, val)
 	switch t.Op {
 	case sym.OpNot:
 		p.learn(t.Args[0], !val)
@@ -219,10 +222,13 @@ func (p *Path) learn(t *sym.Term, val bool) {
 // simp rewrites t under the literals known from the path condition (sound: only
 // replaces sub-terms whose value is implied by pc).
 func (p *Path) simp(t *sym.Term) *sym.Term {
-	if t.IsConst() || len(p.known) == 0 {
+	if t.IsConst() {
 		return t
 	}
 	if v, ok := p.known[t]; ok {
+		return p.Ctx.Bool(v)
+	}
+	if v, ok := p.decideCmp(t); ok {
 		return p.Ctx.Bool(v)
 	}
 	switch t.Op {
